@@ -395,15 +395,21 @@ def _frame(e):
 
 
 def classify_ring(ring):
-    """Classify a budget exceedance from the last processed internal events: 'activated-instant-end' =
-    nothing but start/started/finished/failed/unhandled events of at most three activated flows."""
+    """Classify a budget exceedance from the last processed internal events.
+    'activated-instant-end' = nothing but start/started/finished/failed/unhandled events of at most three
+    activated flows.  Sub-class 'internal-wait': every restarting flow reaches STARTED in each cycle (it passes a
+    match statement on an internal event that is already queued - the known F7b shape); 'before-first-match':
+    a restarting flow never gets started (it ends before its first match statement - must not loop)."""
     names = [r[0] for r in ring]
     starts = [r for r in ring if r[0] == "StartFlow" and r[2]]
     allowed = ("StartFlow", "FlowStarted", "FlowFinished", "FlowFailed", "FinishFlow", "StopFlow", "ColangError", "UnhandledEvent", "BotIntentLog", "UserIntentLog", "BotActionLog", "UserActionLog")
-    if len(starts) >= 5 and len(set(s[1] for s in starts)) <= 3 and all(n in allowed for n in names[-80:]):
+    restarting = set(s[1] for s in starts)
+    if len(starts) >= 5 and len(restarting) <= 3 and all(n in allowed for n in names[-80:]):
         kinds = set(n for n in names if n in ("FlowFinished", "FlowFailed"))
         kind = "finish" if kinds == {"FlowFinished"} else ("fail" if kinds == {"FlowFailed"} else "mixed")
-        return "activated-instant-end:%s" % kind
+        started = set(r[1] for r in ring if r[0] == "FlowStarted")
+        sub = "internal-wait" if restarting <= started else "before-first-match"
+        return "activated-instant-end:%s:%s" % (sub, kind)
     return "other"
 
 
@@ -412,9 +418,13 @@ def _ring_brief(ring):
 
 
 def _add_instant_end_flows(prog, d):
-    """Shapes that F7 is about: activated flows whose instances end within the processing of the event that started them."""
-    shape = d.weighted([("finish-await-instant", 2), ("abort-first", 2), ("error-first", 2), ("when-instant", 1), ("plain-finish", 2)], "ieshape")
+    """Shapes that F7 is about: activated flows whose instances end within the processing of the event that
+    started them.  Activation either by `activate` in main or as a module-level `@active` flow (nobody waits for it)."""
+    shape = d.weighted([("finish-await-instant", 2), ("abort-first", 2), ("error-first", 2), ("when-instant", 1), ("plain-finish", 2),
+                        ("action-then-abort", 2), ("action-then-error", 2), ("assign-then-abort", 1)], "ieshape")
+    style = d.weighted([("main-activate", 1), ("module-active", 1)], "iestyle")
     flows = prog["flows"]
+    act = {"k": "start_action", "action": "UtteranceBotAction", "args": {"script": "trying"}}
     if shape == "plain-finish":
         flows.append({"name": "inst", "body": [{"k": "send", "ev": "Minst", "args": {}}]})
     elif shape == "finish-await-instant":
@@ -424,12 +434,20 @@ def _add_instant_end_flows(prog, d):
         flows.append({"name": "inst", "body": [{"k": "abort"}]})
     elif shape == "error-first":
         flows.append({"name": "inst", "body": [{"k": "assign", "var": "$bad", "expr": '1 + "a"'}, {"k": "match", "ev": "E1", "args": {}}]})
+    elif shape == "action-then-abort":
+        flows.append({"name": "inst", "body": [act, {"k": "abort"}]})
+    elif shape == "action-then-error":
+        flows.append({"name": "inst", "body": [act, {"k": "assign", "var": "$bad", "expr": '1 + "a"'}, {"k": "match", "ev": "E1", "args": {}}]})
+    elif shape == "assign-then-abort":
+        flows.append({"name": "inst", "body": [{"k": "assign", "var": "$v", "expr": "1"}, {"k": "send", "ev": "Mtry", "args": {}}, {"k": "abort"}]})
     else:
         flows.append({"name": "inst0", "body": [{"k": "send", "ev": "Minst0", "args": {}}]})
         flows.append({"name": "inst", "body": [{"k": "when", "cases": [{"cond": "inst0", "body": [{"k": "send", "ev": "Mw", "args": {}}]}], "else": None}]})
-    main = flows[0]
-    main["body"].insert(0, {"k": "activate_flow", "flow": "inst"})
-    prog["instant_shape"] = shape
+    if style == "module-active":
+        flows[-1]["decorators"] = ["@active"]
+    else:
+        flows[0]["body"].insert(0, {"k": "activate_flow", "flow": "inst"})
+    prog["instant_shape"] = shape + ":" + style
 
 
 PROP = C10()
